@@ -316,6 +316,12 @@ func (fc *FuncCtx) typeFacts() string {
 		if hasCmp {
 			fmt.Fprintf(&sb, "(assert (= (known_comparable %d) %v))\n", id, types.Comparable(t))
 		}
+		for _, fn := range sortedKeys(fc.implFuns) {
+			if _, isI := t.Underlying().(*types.Interface); isI {
+				continue
+			}
+			fmt.Fprintf(&sb, "(assert (= (%s %d) %v))\n", fn, id, types.Implements(t, fc.implFuns[fn]))
+		}
 	}
 	return sb.String()
 }
